@@ -32,6 +32,16 @@ pub fn allocate_array(
     types: &UserDefinedTypes,
 ) -> Result<Variant, RuntimeError> {
     let dimensions = to_dimensions(dimension_args)?;
+    if let ExpressionType::FixedLengthString(len) = element_type {
+        // the limit is about memory, and these elements are big
+        let element_count: i64 = dimensions
+            .iter()
+            .map(|(lbound, ubound)| *ubound as i64 - *lbound as i64 + 1)
+            .product();
+        if element_count.saturating_mul(*len as i64) > MAX_ARRAY_ELEMENTS * 16 {
+            return Err(RuntimeError::SubscriptOutOfRange);
+        }
+    }
     Ok(Variant::VArray(Box::new(VArray::new(
         dimensions,
         allocate_array_element(element_type, types),
